@@ -497,7 +497,11 @@ def r10_binary_chains(ctx, rule="C10.R10"):
         return out
 
     import itertools
-    for ops in itertools.product(ops_all, repeat=3):
+    chains = list(itertools.product(ops_all, repeat=3))
+    if ctx.tier == "thorough":
+        # every operator (not one per level) in chains of three, and chains of four over the levels
+        chains = list(itertools.product(sorted(RANK), repeat=3)) + list(itertools.product(ops_all, repeat=4))
+    for ops in chains:
         n += 1
         got = sorted({_tree(r) for r in build(list(ops))})
         want = _expected_chain(list(ops))
@@ -507,7 +511,7 @@ def r10_binary_chains(ctx, rule="C10.R10"):
             continue
         if sorted({_canon(g) for g in got}) != [_canon(want)]:
             bad += 1
-            ctx.violation(rule, key, fn.loc, "`a %s b %s c %s d` is built as %s, the ranks prescribe %s" % (ops[0], ops[1], ops[2], got, want))
+            ctx.violation(rule, key, fn.loc, "`x %s x` is built as %s, the ranks prescribe %s" % (" x ".join(ops), got, want))
         else:
             ctx.ok(rule, key, fn.loc, want)
     ctx.analysed_units(rule, chains=n, levels=ops_all)
